@@ -193,6 +193,9 @@ EXT_FUNCS = {
 }
 
 
+# class-level dict tables, regenerated by tools/gen_tables*.py into Gen/Tables_*.v as functions to option
+CLASS_TABLES = {"GlencoeWriter.CTC_TYPES": ("glencoe_ctc_type", ASTOP, STR)}
+
 OBJECTS = {}      # class name -> [(field, type, init ast)] for classes translated as state records
 
 
@@ -457,6 +460,18 @@ class Translator:
         vs = [self.coerce(v, t, e) for v in vs]
         return self.lift(vs, lambda c: Val("[" + "; ".join(c) + "]", List(t)))
 
+    def e_Dict(self, e, env):
+        if not e.keys:
+            return Val("(VMap [])", ANY)
+        keys = []
+        for k in e.keys:
+            if not (isinstance(k, ast.Constant) and isinstance(k.value, str)) or k.value in keys:
+                fail(e, "dict literal with keys other than distinct string constants")
+            keys.append(k.value)
+        vals = [self.coerce(self.tr(v, env), ANY, e) for v in e.values]
+        return self.lift(vals, lambda c: Val("(VMap [" + "; ".join(
+            f"({coq_str(k)}, {x})" for k, x in zip(keys, c)) + "])", ANY))
+
     def e_UnaryOp(self, e, env):
         if isinstance(e.op, ast.Not):
             return self.tr_if(e.operand, env, lambda en: Val("false", BOOL), lambda en: Val("true", BOOL), e)
@@ -518,7 +533,55 @@ class Translator:
             return self.call_func(f, [a, b], ctx)
         if ta[0] == "list" and tb[0] == "list" and b.code == "[]":
             return self.lift([a], lambda c: Val(f"(py_is_nil {c[0]})", BOOL))
+        if ta[0] == "list" and tb[0] == "list":
+            x, y = self.fresh("x"), self.fresh("y")
+            eq = self.eq_code(Val(x, ta[1]), Val(y, tb[1]), ctx)
+            if eq.eff:
+                fail(ctx, "list equality over elements whose == can raise")
+            return self.lift([a, b], lambda c: Val(f"(py_list_eqb (fun {x} {y} => {eq.code}) {c[0]} {c[1]})", BOOL))
+        for cls, t in (("Relation", RELATION), ("Constraint", CTC), ("FeatureModel", FMODEL)):
+            if ta == t and tb == t:
+                f = self.lookup((cls, "__eq__"))
+                if f is None:
+                    fail(ctx, f"{cls}.__eq__ is not translated")
+                return self.call_func(f, [a, b], ctx)
         fail(ctx, f"no equality for {ta} == {tb}")
+
+    def lt_code(self, a, b, ctx):
+        """a < b"""
+        ta, tb = a.ty, b.ty
+        if ta == INT and tb == INT:
+            return self.lift([a, b], lambda c: Val(f"(Z.ltb {c[0]} {c[1]})", BOOL))
+        if ta == STR and tb == STR:
+            return self.lift([a, b], lambda c: Val(f"(str_ltb {c[0]} {c[1]})", BOOL))
+        for cls, t in (("Feature", FEATURE), ("Relation", RELATION), ("Constraint", CTC)):
+            if ta == t and tb == t:
+                f = self.lookup((cls, "__lt__"))
+                if f is None:
+                    fail(ctx, f"{cls}.__lt__ is not translated")
+                return self.call_func(f, [a, b], ctx)
+        if ta[0] == "list" and tb[0] == "list":
+            x, y = self.fresh("x"), self.fresh("y")
+            lt = self.lt_code(Val(x, ta[1]), Val(y, tb[1]), ctx)
+            eq = self.eq_code(Val(x, ta[1]), Val(y, tb[1]), ctx)
+            if lt.eff or eq.eff:
+                fail(ctx, "list order over elements whose comparison can raise")
+            return self.lift([a, b], lambda c: Val(
+                f"(py_list_ltb (fun {x} {y} => {lt.code}) (fun {x} {y} => {eq.code}) {c[0]} {c[1]})", BOOL))
+        if ta[0] == "tuple" and tb[0] == "tuple" and len(ta[1]) == len(tb[1]):
+            # first position where the two differ (by ==) decides with <; no such position: not less
+            xs = [self.fresh("a") for _ in ta[1]]
+            ys = [self.fresh("b") for _ in tb[1]]
+            code = "false"
+            for x, y, tx, ty_ in reversed(list(zip(xs, ys, ta[1], tb[1]))):
+                eq = self.eq_code(Val(x, tx), Val(y, ty_), ctx)
+                lt = self.lt_code(Val(x, tx), Val(y, ty_), ctx)
+                if eq.eff or lt.eff:
+                    fail(ctx, "tuple order over elements whose comparison can raise")
+                code = f"(if {eq.code} then {code} else {lt.code})"
+            return self.lift([a, b], lambda c: Val(
+                f"(let '({', '.join(xs)}) := {c[0]} in let '({', '.join(ys)}) := {c[1]} in {code})", BOOL))
+        fail(ctx, f"no order for {ta} < {tb}")
 
     def in_code(self, a, l, ctx):
         if l.ty[0] != "list":
@@ -551,6 +614,8 @@ class Translator:
             elif isinstance(op, ast.NotIn):
                 r = self.in_code(a, b, e)
                 parts.append(self.lift([r], lambda c: Val(f"(negb {c[0]})", BOOL)))
+            elif isinstance(op, ast.Lt) and not (a.ty in (INT, BOOL) and b.ty in (INT, BOOL)):
+                parts.append(self.lt_code(a, b, e))
             elif isinstance(op, (ast.Lt, ast.Gt, ast.LtE, ast.GtE)):
                 a, b = self.coerce(a, INT, e), self.coerce(b, INT, e)
                 t = {ast.Lt: "(Z.ltb {0} {1})", ast.Gt: "(Z.ltb {1} {0})", ast.LtE: "(Z.leb {0} {1})",
@@ -571,6 +636,8 @@ class Translator:
             return self.lift([v], lambda c: Val(f"(negb (py_is_nil {c[0]}))", BOOL))
         if v.ty == ANY:
             return self.lift([v], lambda c: Val(f"(aval_truthy {c[0]})", BOOL))
+        if v.ty in (FEATURE, RELATION, FMODEL, CTC) and not v.eff:
+            return Val("true", BOOL)          # an object without __bool__ / __len__ (and, by its annotation, not None)
         if v.ty == INT:
             return self.lift([v], lambda c: Val(f"(negb (Z.eqb {c[0]} 0%Z))", BOOL))
         fail(ctx, f"truth value of {v.ty}")
@@ -716,7 +783,7 @@ class Translator:
 
     def e_Call(self, e, env):
         fn = e.func
-        if e.keywords:
+        if e.keywords and not (isinstance(fn, ast.Name) and fn.id == "sorted"):
             fail(e, "keyword arguments")
         if isinstance(fn, ast.Name):
             return self.call_name(fn.id, e, env)
@@ -735,6 +802,14 @@ class Translator:
                 if eff:
                     self.cur.intrinsic_eff = True
                 return self.lift([recv], lambda c: Val(tmpl.format(c[0]), ty, eff))
+            if recv.ty == STR and fn.attr == "replace" and len(e.args) == 2 and all(
+                    isinstance(a, ast.Constant) and isinstance(a.value, str) for a in e.args) and \
+                    len(e.args[0].value) == 1 and e.args[1].value == "":
+                ch = coq_str(e.args[0].value)
+                return self.lift([recv], lambda c: Val(f"(str_remove_char {ch}%char {c[0]})", STR))
+            if recv.ty == STR and fn.attr == "lower" and not e.args:
+                # str.lower(): ASCII lowering (the assumption of C20: names and operators are compared after it)
+                return self.lift([recv], lambda c: Val(f"(str_lower {c[0]})", STR))
             if recv.ty == NDATA and fn.attr == "startswith" and len(e.args) == 1:
                 a = e.args[0]
                 if isinstance(a, ast.Constant) and isinstance(a.value, str) and len(a.value) == 1:
@@ -796,6 +871,45 @@ class Translator:
             lc = self.coerce(l, List(t), e)
             dc = self.coerce(d, t, e)
             return self.lift([lc], lambda c: Val(f"(match {c[0]} with x :: _ => x | [] => {dc.code} end)", t))
+        if name == "sorted" and len(args) == 1 and not e.keywords:
+            src = self.arg_list(args[0], env)
+            x, y = self.fresh("x"), self.fresh("y")
+            lt = self.lt_code(Val(x, src.ty[1]), Val(y, src.ty[1]), e)
+            if lt.eff:
+                fail(e, "sorted() with an order that can raise")
+            return self.lift([src], lambda c: Val(f"(py_sorted_lt (fun {x} {y} => {lt.code}) {c[0]})", src.ty))
+        if name == "sorted" and len(args) == 1:
+            src = self.arg_list(args[0], env)
+            kw = {k.arg: k.value for k in e.keywords}
+            if set(kw) != {"key"} or not isinstance(kw["key"], ast.Lambda) or len(kw["key"].args.args) != 1:
+                fail(e, "sorted() is supported with key=lambda x: <string> only")
+            lam = kw["key"]
+            v = self.fresh(lam.args.args[0].arg + "_")
+            kv = self.tr(lam.body, env.bind(lam.args.args[0].arg, v, src.ty[1]))
+            if kv.ty != STR or kv.eff:
+                fail(e, "sort key must be a pure string expression")
+            return self.lift([src], lambda c: Val(f"(py_sorted_str (fun {v} => {kv.code}) {c[0]})", src.ty))
+        if name == "str" and len(args) == 1:
+            v = self.tr(args[0], env)
+            if v.ty == STR:
+                return v
+            if v.ty == INT:
+                return self.lift([v], lambda c: Val(f"(z_to_string {c[0]})", STR))
+            if v.ty == NDATA:
+                return self.lift([v], lambda c: Val(f"(data_str {c[0]})", STR))
+            if v.ty in (ASTT, NODE):
+                return self.lift([v], lambda c: Val(f"(node_str {c[0]})", STR))      # AST.__str__ / Node.__str__ (core)
+            f = self.lookup((v.ty[0], "__str__"))
+            if f is not None:
+                return self.call_func(f, [v], e)
+            fail(e, f"str() of {v.ty}")
+        if name == "next" and len(args) == 1 and isinstance(args[0], ast.GeneratorExp):
+            l = self.tr(args[0], env)
+            if self.last_comp_body_eff or len(args[0].generators) != 1:
+                fail(e, "next() over a generator whose elements can raise")
+            self.cur.intrinsic_eff = True
+            # StopIteration has no member in the exception enum: OtherExn
+            return self.lift([l], lambda c: Val(f"(match {c[0]} with x :: _ => Ok x | [] => Err OtherExn end)", l.ty[1], True))
         if name == "zip" and len(args) == 2:
             a, b = self.arg_list(args[0], env), self.arg_list(args[1], env)
             return self.lift([a, b], lambda c: Val(f"(combine {c[0]} {c[1]})", List(Tup([a.ty[1], b.ty[1]]))))
@@ -850,7 +964,20 @@ class Translator:
         return self.lift([src], lambda c: Val(f"({fn} (fun {pat} => {body.code}) {c[0]})", BOOL))
 
     def e_Subscript(self, e, env):
+        if isinstance(e.value, ast.Attribute) and ast.unparse(e.value) in CLASS_TABLES:
+            fn, kty, vty = CLASS_TABLES[ast.unparse(e.value)]
+            k = self.tr(e.slice, env)
+            self.cur.intrinsic_eff = True
+            if k.ty == NDATA and kty == ASTOP:
+                return self.lift([k], lambda c: Val(
+                    f"(match {c[0]} with DOp o => match {fn} o with Some v => Ok v | None => Err KeyError end "
+                    f"| _ => Err KeyError end)", vty, True))
+            fail(e, f"table lookup with a key of type {k.ty}")
         v = self.obj(self.tr(e.value, env))
+        if v.ty == ANY and not isinstance(e.slice, ast.Slice):
+            k = self.coerce(self.tr(e.slice, env), STR, e)
+            self.cur.intrinsic_eff = True
+            return self.lift([v, k], lambda c: Val(f"(aval_get {c[0]} {c[1]})", ANY, True))
         if v.ty[0] != "list":
             fail(e, f"subscript of {v.ty}")
         if isinstance(e.slice, ast.Slice):
@@ -1004,6 +1131,20 @@ class Translator:
         if (isinstance(t, ast.Attribute) and isinstance(t.value, ast.Name) and t.value.id == "self"
                 and "self" in env.vars and env.vars["self"][1][0] == "obj"):
             return self.assign_field(t.attr, self.tr(s.value, env), rest, env, k, s)
+        if (isinstance(t, ast.Subscript) and isinstance(t.value, ast.Subscript) and isinstance(t.value.value, ast.Name)
+                and t.value.value.id in self.local_containers and t.value.value.id in env.vars
+                and env.vars[t.value.value.id][1] == ANY):
+            # d[k1][k2] = v : the inner dict is reachable through d only (d was created in this function and
+            # its entries are values built here), so the update is d[k1] = (d[k1] with k2 := v)
+            d = self.tr(t.value.value, env)
+            k1 = self.coerce(self.tr(t.value.slice, env), STR, s)
+            k2 = self.coerce(self.tr(t.slice, env), STR, s)
+            vv = self.coerce(self.tr(s.value, env), ANY, s)
+            self.cur.intrinsic_eff = True
+            new = self.lift([k1, k2, vv], lambda c: Val(
+                f"(bind (aval_get {d.code} {c[0]}) (fun inner => Ok (aval_set {d.code} {c[0]} (aval_set inner {c[1]} {c[2]}))))",
+                ANY, True))
+            return self.assign(t.value.value.id, new, rest, env, k, s)
         fail(s, "unsupported assignment target")
 
     def assign_field(self, field, v, rest, env, k, ctx):
@@ -1021,9 +1162,9 @@ class Translator:
     def tr_value(self, e, env, name):
         if isinstance(e, ast.Dict) and not e.keys:
             t = self.vartypes.get(name)
-            if t == ANY:
-                return Val("(VMap [])", ANY)
-            if t is None or t[0] != "dict":
+            if t == ANY or t is None:
+                return Val("(VMap [])", ANY)        # an unannotated {} is a JSON-like dict
+            if t[0] != "dict":
                 fail(e, "an empty dict needs an annotation")
             return Val("[]", t)
         return self.tr(e, env)
@@ -1303,7 +1444,7 @@ def collect(unit):
         for arg, d in zip(a.args, defaults):
             if arg.arg == "self":
                 f.params.append(("self", ("obj", f.cls) if getattr(f, "is_obj", False) else (f.cls,), None))
-            elif arg.arg == "other" and f.node.name == "__eq__":
+            elif arg.arg == "other" and f.node.name in ("__eq__", "__lt__"):
                 f.params.append(("other", (f.cls,), None))     # compared only with objects of its own class here
             else:
                 f.params.append((arg.arg, parse_ann(arg.annotation, arg), d))
@@ -1448,22 +1589,23 @@ Local Open Scope list_scope.
 UNITS = [
     {"name": "fm", "imports": "",
      "files": [("models/feature_model.py", {
-         "Relation": ["is_mandatory", "is_optional", "is_or", "is_alternative", "is_mutex", "is_cardinal", "is_group"],
-         "Feature": ["__eq__", "is_empty", "get_attributes", "get_relations", "get_parent", "get_children", "is_root", "is_mandatory",
+         "Relation": ["is_mandatory", "is_optional", "is_or", "is_alternative", "is_mutex", "is_cardinal", "is_group",
+                      "__eq__", "_sort_key", "__lt__"],
+         "Feature": ["__eq__", "__str__", "__lt__", "is_empty", "get_attributes", "get_relations", "get_parent", "get_children", "is_root", "is_mandatory",
                      "is_optional", "is_or_group", "is_alternative_group", "is_mutex_group", "is_cardinality_group",
                      "is_group", "is_multiple_group_decomposition", "is_leaf", "is_boolean", "is_numerical",
                      "is_string", "is_multifeature"],
          "Constraint": ["get_features", "is_logical_constraint", "is_arithmetic_constraint",
                         "is_aggregation_constraint", "is_single_feature_constraint", "is_simple_constraint",
                         "is_complex_constraint", "is_requires_constraint", "is_excludes_constraint",
-                        "is_pseudocomplex_constraint", "is_strictcomplex_constraint"],
+                        "is_pseudocomplex_constraint", "is_strictcomplex_constraint", "__eq__", "__lt__"],
          "FeatureModel": ["get_relations", "get_features", "get_boolean_features", "get_numerical_features",
                           "get_string_features", "get_constraints", "get_mandatory_features",
                           "get_optional_features", "get_alternative_group_features", "get_or_group_features",
                           "get_feature_by_name", "get_logical_constraints", "get_arithmetic_constraints",
                           "get_aggregations_constraints", "get_complex_constraints", "get_simple_constraints",
                           "get_excludes_constraints", "get_requires_constraints",
-                          "get_pseudocomplex_constraints", "get_strictcomplex_constraints"],
+                          "get_pseudocomplex_constraints", "get_strictcomplex_constraints", "__eq__"],
      }, ["left_right_features_from_simple_constraint", "split_formula", "split_constraint", "get_new_ctc_name"])]},
     {"name": "ops", "imports": " Gen.Src_fm",
      "files": [
@@ -1494,6 +1636,9 @@ UNITS = [
              {"FMAverageBranchingFactor": ["execute", "get_result", "get_average_branching_factor"]},
          "operations/fm_variation_points.py": {"FMVariationPoints": ["execute", "get_result", "variation_points"]},
      }},
+    {"name": "glencoe", "imports": " Gen.Src_fm Gen.Tables_glencoe",
+     "files": [("transformations/glencoe_writer.py", {},
+                ["_to_json", "_get_features_info", "_get_tree_info", "_get_constraints_info", "_get_ctc_info"])]},
     {"name": "json", "imports": " Gen.Src_fm",
      "files": [("transformations/json_writer.py", {},
                 ["to_json", "get_tree_info", "get_attributes_info", "get_constraints_info", "get_ctc_info"])]},
